@@ -150,3 +150,33 @@ func Explore(r *ev.Run, name string, o Opts) *ev.Part {
 	r.AddPart(part)
 	return part
 }
+
+// Replay re-executes a recorded violation of an E3 check from its list of choices.
+func Replay(v *ev.Violation, run RunFn) {
+	var choices []string
+	var param json.RawMessage
+	if !v.ReplayField("choices", &choices) {
+		if !v.ReplayField("schedule", &choices) {
+			fmt.Println("  (no recorded choices in this replay file)")
+			return
+		}
+	}
+	v.ReplayField("param", &param)
+	for round := 1; round <= 2; round++ {
+		ctx := explore.NewCtx(nil)
+		ctx.Follow = choices
+		var viols []Viol
+		out := run(param, ctx, &viols)
+		fmt.Printf("  re-execution %d: outcome %s, %d choice points", round, out, len(ctx.Trace))
+		if ctx.Diverged != "" {
+			fmt.Printf(", DIVERGED: %s", ctx.Diverged)
+		}
+		fmt.Println()
+		for _, x := range viols {
+			fmt.Printf("    violation %s: %s\n", x.Sig, x.Msg)
+		}
+		if len(viols) == 0 {
+			fmt.Println("    no violation in this re-execution")
+		}
+	}
+}
